@@ -297,6 +297,11 @@ pub fn run(tier: &str, seed: u64) -> i32 {
     // D-chain: the Polkadot registry (de-duplicated, as every real user does) and every single-id closure
     let mut chain: Vec<Case> = vec![];
     for (sname, spec) in &settings {
+        if sname == "subst=btreemap-values" {
+            // that target's known shape is a u8-keyed map, which is what the maps of the small drivers are; the
+            // maps of chain metadata have other keys
+            continue;
+        }
         let mut spec = spec.clone();
         if spec.root == "types" {
             // Polkadot has modules called `types`
